@@ -1212,6 +1212,15 @@ class Interp:
         else:
             start = frame.cls
             self_v = frame.env.get('self')
+        if isinstance(self_v, VClass):
+            # super(C, C).m: the unbound / static / class method found after C in C's own MRO
+            mro = self_v.info.mro(self.repo)
+            idx = mro.index(start)
+            for k in mro[idx + 1:]:
+                if node.attr in k.methods:
+                    m = k.methods[node.attr]
+                    return VFunc(m, self_v) if m.is_classmethod else VFunc(m)
+            raise Unsupported('super(C, C).%s: not a repository method' % node.attr, node)
         c = self.cell(self_v)
         mro = c.cls.mro(self.repo)
         idx = mro.index(start)
